@@ -114,7 +114,14 @@ class Catalogue:
         # captured variables are unknown at firing time except identity of captured objects
         outer = {}
         for k, v in env.items():
-            outer[k] = v if k == "self" else ("captured", k)
+            if k == "self":
+                outer[k] = v
+            elif isinstance(v, tuple) and v and v[0] == "new" and v in eng.init_heap.values():
+                outer[k] = v          # an object of the constructor chain (e.g. the keepalive bookkeeping object): the same one later
+            elif k == "request" and func.parent is not None and func.parent.name == "doConnect":
+                outer[k] = ("captured", k)
+            else:
+                outer[k] = ("param", k)     # typed like a timer parameter, from what was captured at the arming sites
         outer["self"] = SELF
         return list(eng.run(func, {}, st, SELF, outer_env=outer))
 
